@@ -90,8 +90,8 @@ class _Subst(ast.NodeTransformer):
 def _simple(arg):
     if isinstance(arg, (ast.Name, ast.Constant)):
         return True
-    if isinstance(arg, ast.Attribute):
-        return _simple(arg.value)
+    # an attribute argument is bound by assignment (`p = self._x`), not substituted: the helper may change the
+    # attribute before it reads the parameter; the pure-local propagation decides afterwards whether moving the read is sound
     return False
 
 
@@ -154,8 +154,32 @@ def expand_tail(fn, call, is_method):
     return prefix + body
 
 
-def expand(fn, call, is_method, uid):
+class _RenameLocals(ast.NodeTransformer):
+    def __init__(self, mapping):
+        self.mapping = mapping
+
+    def visit_Name(self, node):
+        if node.id in self.mapping:
+            return ast.copy_location(ast.Name(id=self.mapping[node.id], ctx=node.ctx), node)
+        return node
+
+    def visit_arg(self, node):
+        if node.arg in self.mapping:
+            node.arg = self.mapping[node.arg]
+        return node
+
+
+def _freshen(fn, clash, uid):
+    """A copy of the helper with every local in `clash` renamed apart (no capture of the caller's names)."""
+    if not clash:
+        return fn
+    fn2 = copy.deepcopy(fn)
+    return _RenameLocals({n: f'{n}__h{uid}' for n in clash}).visit(fn2)
+
+
+def expand(fn, call, is_method, uid, clash=()):
     """-> (prefix statements, result expression or None)"""
+    fn = _freshen(fn, clash, uid)
     if fn.decorator_list or _has(fn, (ast.Yield, ast.YieldFrom, ast.Await)) or \
             any(isinstance(n, (ast.FunctionDef, ast.AsyncFunctionDef, ast.ClassDef)) and n is not fn for n in ast.walk(fn)):
         raise NoInline('shape')
@@ -367,6 +391,46 @@ class Inliner:
             return mfuncs[f.id], False
         return None, False
 
+    @staticmethod
+    def _clash(func, stmt, call, tgt, is_method, form):
+        """Locals (and parameters) of the helper that must be renamed apart before its body is spliced into `func`:
+        names the helper stores that the caller still reads after the call (or anywhere in a loop round the call), or that
+        occur in the argument expressions (they would capture a substituted parameter).  A name that simply flows into the
+        same-named assignment target of the call is not a clash (`x = self._h()` where the helper returns its local x)."""
+        params = [a.arg for a in tgt.args.args][1 if is_method else 0:]
+        hstores = _stores(tgt) | set(params)
+        pos = (getattr(stmt, 'end_lineno', stmt.lineno), getattr(stmt, 'end_col_offset', 0))
+        loops = []
+        for n in ast.walk(func):
+            if isinstance(n, (ast.For, ast.While)) and any(x is stmt for x in ast.walk(n)):
+                loops.append(n)
+        live = set()
+        for n in ast.walk(func):
+            if isinstance(n, ast.Name) and isinstance(n.ctx, ast.Load) and n.id in hstores and hasattr(n, 'lineno'):
+                if (n.lineno, n.col_offset) >= pos and not any(n is x for x in ast.walk(stmt)):
+                    live.add(n.id)
+        for lp in loops:
+            for n in ast.walk(lp):
+                if isinstance(n, ast.Name) and isinstance(n.ctx, ast.Load) and n.id in hstores and not any(n is x for x in ast.walk(stmt)):
+                    live.add(n.id)
+        in_args = {n.id for a in list(call.args) + [k.value for k in call.keywords] for n in ast.walk(a) if isinstance(n, ast.Name)}
+        clash = (live | (in_args & hstores))
+        # a parameter passed its own name needs no renaming; neither does the value that flows into the same-named target
+        same = {p for p in params if any(isinstance(a, ast.Name) and a.id == p for a in list(call.args) + [k.value for k in call.keywords])}
+        flows = set()
+        if form == 'assign':
+            t0 = stmt.targets[0]
+            tn = {t0.id} if isinstance(t0, ast.Name) else ({e.id for e in t0.elts if isinstance(e, ast.Name)} if isinstance(t0, ast.Tuple) else set())
+            rets = [r.value for r in ast.walk(tgt) if isinstance(r, ast.Return) and r.value is not None]
+            rn = set()
+            for r in rets:
+                if isinstance(r, ast.Name):
+                    rn.add(r.id)
+                elif isinstance(r, ast.Tuple):
+                    rn |= {e.id for e in r.elts if isinstance(e, ast.Name)}
+            flows = tn & rn
+        return sorted(clash - same - flows)
+
     def _inline_in(self, func, cands, mfuncs, mod, clsname):
         changed = False
 
@@ -407,7 +471,7 @@ class Inliner:
                                 self.notes.append(f'{mod}.{clsname + "." if clsname else ""}{func.name}: inlined {tgt.name}')
                                 changed = True
                                 continue
-                            pre, res = expand(tgt, call, is_method, self.count)
+                            pre, res = expand(tgt, call, is_method, self.count, self._clash(func, s, call, tgt, is_method, form))
                             for x in pre:
                                 ast.copy_location(x, s)
                                 for y in ast.walk(x):
